@@ -187,6 +187,13 @@ struct Lowerer {
     in_interpolation: bool,
 }
 
+/// verification hook: one line per operation on the Lowerer's identifier state (cid / tid generators,
+/// node_mapping, pipeline buffer, table_buffer), replayed against coq/Model/Lowerer.v by /verif's check C16
+#[cfg(prqlc_verif)]
+fn verif_op(op: &str, data: serde_json::Value) {
+    log::debug!("verif:lowerer_op {}", serde_json::json!({"op": op, "d": data}));
+}
+
 #[derive(Clone, EnumAsInner, Debug)]
 enum LoweredTarget {
     /// Lowered node was a computed expression.
@@ -241,6 +248,12 @@ impl Lowerer {
 
         log::debug!("lowering table {name:?}, columns = {:?}", relation.columns);
 
+        #[cfg(prqlc_verif)]
+        verif_op(
+            if matches!(relation.kind, rq::RelationKind::ExternRef(_)) { "extern" } else { "table" },
+            serde_json::json!({"tid": id, "name": name, "columns": relation.columns}),
+        );
+
         let table = TableDecl { id, name, relation };
         self.table_buffer.push(table);
         Ok(())
@@ -280,6 +293,8 @@ impl Lowerer {
 
                 // create a new table
                 let tid = self.tid.gen();
+                #[cfg(prqlc_verif)]
+                verif_op("reserve", serde_json::json!({"tid": tid}));
 
                 let relation = self.lower_relation(expr)?;
 
@@ -287,6 +302,8 @@ impl Lowerer {
                 let cids = last_transform.as_select().unwrap().clone();
 
                 log::debug!("lowering inline table, columns = {:?}", relation.columns);
+                #[cfg(prqlc_verif)]
+                verif_op("inline_table", serde_json::json!({"tid": tid}));
                 self.table_buffer.push(TableDecl {
                     id: tid,
                     name: None,
@@ -296,7 +313,13 @@ impl Lowerer {
                 // return an instance of this new table
                 let table_ref = self.create_a_table_instance(id, None, tid);
 
-                let redirects = zip(cids, table_ref.columns.iter().map(|(_, c)| *c)).collect();
+                let redirects: HashMap<CId, CId> =
+                    zip(cids, table_ref.columns.iter().map(|(_, c)| *c)).collect();
+                #[cfg(prqlc_verif)]
+                verif_op(
+                    "redirect",
+                    serde_json::json!({"pairs": redirects.iter().sorted().collect::<Vec<_>>()}),
+                );
                 self.redirect_mappings(redirects);
 
                 table_ref
@@ -328,6 +351,8 @@ impl Lowerer {
                     kind: rq::RelationKind::SString(items),
                     columns,
                 };
+                #[cfg(prqlc_verif)]
+                verif_op("leaf", serde_json::json!({"tid": tid, "relation": relation}));
 
                 self.table_buffer.push(TableDecl {
                     id: tid,
@@ -362,6 +387,8 @@ impl Lowerer {
                     kind: rq::RelationKind::BuiltInFunction { name, args },
                     columns: tuple_fields_to_relation_columns(columns),
                 };
+                #[cfg(prqlc_verif)]
+                verif_op("leaf", serde_json::json!({"tid": tid, "relation": relation}));
 
                 self.table_buffer.push(TableDecl {
                     id: tid,
@@ -419,6 +446,8 @@ impl Lowerer {
                     kind: rq::RelationKind::Literal(lit),
                     columns,
                 };
+                #[cfg(prqlc_verif)]
+                verif_op("leaf", serde_json::json!({"tid": tid, "relation": relation}));
 
                 self.table_buffer.push(TableDecl {
                     id: tid,
@@ -489,6 +518,11 @@ impl Lowerer {
             .collect_vec();
 
         log::debug!("... columns = {columns:?}");
+        #[cfg(prqlc_verif)]
+        verif_op(
+            "instance",
+            serde_json::json!({"node": id, "name": name, "tid": tid, "columns": columns}),
+        );
 
         let input_cids: HashMap<_, _> = columns
             .iter()
@@ -510,11 +544,18 @@ impl Lowerer {
         let span = expr.span;
         let lineage = expr.lineage.clone();
         let prev_pipeline = self.pipeline.drain(..).collect_vec();
+        #[cfg(prqlc_verif)]
+        verif_op("relation_begin", serde_json::json!({}));
 
         self.lower_pipeline(expr, None)?;
 
         let mut transforms = self.pipeline.drain(..).collect_vec();
         let columns = self.push_select(lineage, &mut transforms).with_span(span)?;
+        #[cfg(prqlc_verif)]
+        verif_op(
+            "relation_end",
+            serde_json::json!({"select": transforms.last(), "columns": columns}),
+        );
 
         self.pipeline = prev_pipeline;
 
@@ -544,6 +585,8 @@ impl Lowerer {
 
                 let table_ref = self.lower_table_ref(ast)?;
                 self.pipeline.push(Transform::From(table_ref));
+                #[cfg(prqlc_verif)]
+                verif_op("push", serde_json::json!({"transform": self.pipeline.last()}));
                 return Ok(());
             }
         };
@@ -574,11 +617,15 @@ impl Lowerer {
             pl::TransformKind::Select { assigns, .. } => {
                 let cids = self.declare_as_columns(*assigns, false)?;
                 self.pipeline.push(Transform::Select(cids));
+                #[cfg(prqlc_verif)]
+                verif_op("push", serde_json::json!({"transform": self.pipeline.last()}));
             }
             pl::TransformKind::Filter { filter, .. } => {
                 let filter = self.lower_expr(*filter)?;
 
                 self.pipeline.push(Transform::Filter(filter));
+                #[cfg(prqlc_verif)]
+                verif_op("push", serde_json::json!({"transform": self.pipeline.last()}));
             }
             pl::TransformKind::Aggregate { assigns, .. } => {
                 let window = self.window.take();
@@ -588,10 +635,14 @@ impl Lowerer {
                 let partition = window.unwrap().partition;
                 self.pipeline
                     .push(Transform::Aggregate { partition, compute });
+                #[cfg(prqlc_verif)]
+                verif_op("push", serde_json::json!({"transform": self.pipeline.last()}));
             }
             pl::TransformKind::Sort { by, .. } => {
                 let sorts = self.lower_sorts(by)?;
                 self.pipeline.push(Transform::Sort(sorts));
+                #[cfg(prqlc_verif)]
+                verif_op("push", serde_json::json!({"transform": self.pipeline.last()}));
             }
             pl::TransformKind::Take { range, .. } => {
                 let window = self.window.take().unwrap_or_default();
@@ -604,6 +655,8 @@ impl Lowerer {
                     partition: window.partition,
                     sort: window.sort,
                 }));
+                #[cfg(prqlc_verif)]
+                verif_op("push", serde_json::json!({"transform": self.pipeline.last()}));
             }
             pl::TransformKind::Join {
                 side, with, filter, ..
@@ -616,14 +669,20 @@ impl Lowerer {
                     filter: self.lower_expr(*filter)?,
                 };
                 self.pipeline.push(transform);
+                #[cfg(prqlc_verif)]
+                verif_op("push", serde_json::json!({"transform": self.pipeline.last()}));
             }
             pl::TransformKind::Append(bottom) => {
                 let mut bottom = self.lower_table_ref(*bottom)?;
                 bottom.prefer_cte = false;
 
                 self.pipeline.push(Transform::Append(bottom));
+                #[cfg(prqlc_verif)]
+                verif_op("push", serde_json::json!({"transform": self.pipeline.last()}));
             }
             pl::TransformKind::Loop(pipeline) => {
+                #[cfg(prqlc_verif)]
+                verif_op("loop_begin", serde_json::json!({}));
                 let relation = self.lower_relation(*pipeline)?;
                 let mut pipeline = relation.kind.into_pipeline().unwrap();
 
@@ -631,6 +690,8 @@ impl Lowerer {
                 pipeline.pop();
 
                 self.pipeline.push(Transform::Loop(pipeline));
+                #[cfg(prqlc_verif)]
+                verif_op("loop_end", serde_json::json!({}));
             }
             pl::TransformKind::Group { .. } | pl::TransformKind::Window { .. } => unreachable!(
                 "transform `{}` cannot be lowered.",
@@ -814,6 +875,11 @@ impl Lowerer {
         // short-circuit if this node has already been lowered
         if let Some(LoweredTarget::Compute(lowered)) = self.node_mapping.get(&expr_ast.id.unwrap())
         {
+            #[cfg(prqlc_verif)]
+            verif_op(
+                "declare",
+                serde_json::json!({"node": expr_ast.id.unwrap(), "how": "cached", "cid": lowered}),
+            );
             return Ok(*lowered);
         }
 
@@ -836,6 +902,11 @@ impl Lowerer {
         if let rq::ExprKind::ColumnRef(cid) = &expr.kind {
             if !needs_window && (!has_alias || alias == alias_for) {
                 self.node_mapping.insert(id, LoweredTarget::Compute(*cid));
+                #[cfg(prqlc_verif)]
+                verif_op(
+                    "declare",
+                    serde_json::json!({"node": id, "how": "alias", "cid": cid}),
+                );
                 return Ok(*cid);
             }
         }
@@ -856,6 +927,11 @@ impl Lowerer {
             is_aggregation,
         };
         self.node_mapping.insert(id, LoweredTarget::Compute(cid));
+        #[cfg(prqlc_verif)]
+        verif_op(
+            "declare",
+            serde_json::json!({"node": id, "how": "new", "compute": compute}),
+        );
 
         self.pipeline.push(Transform::Compute(compute));
         Ok(cid)
